@@ -82,15 +82,15 @@ type pathState struct {
 	trace    []TraceItem
 	done     string // "", "return", "panic"
 	depth    int
-	rets     []retVal             // values returned by the most recently inlined callee (constant-propagated where known)
-	sel      map[string]*selSet   // subject expression -> the constants it can still equal on this path (value dispatch)
-	retStmt  *ast.ReturnStmt      // the return statement of the interpreted function that ended this path
-	retName  string               // the variable the most recently inlined callee returned as its first result
-	retExprs []ast.Expr           // the result expressions of the most recently inlined callee's return
-	aliasE   map[string]aliasExpr // boolean locals that name a condition: the condition itself (valid while alias[name] == text)
-	loopSel  map[string]*selSet   // dispatch decisions taken inside a loop body (reported, never used to prune)
-	fieldE   map[string]ast.Expr  // "x.f" -> the boolean condition stored in that field by a composite literal / assignment
-	fieldA   map[string]fieldAtom // "x.f" -> the same condition reduced to one atom / a constant (valid in any scope)
+	rets     []retVal              // values returned by the most recently inlined callee (constant-propagated where known)
+	sel      map[string]*selSet    // subject expression -> the constants it can still equal on this path (value dispatch)
+	retStmt  *ast.ReturnStmt       // the return statement of the interpreted function that ended this path
+	retName  string                // the variable the most recently inlined callee returned as its first result
+	retExprs []ast.Expr            // the result expressions of the most recently inlined callee's return
+	aliasE   map[string]aliasExpr  // boolean locals that name a condition: the condition itself (valid while alias[name] == text)
+	loopSel  map[string]*selSet    // dispatch decisions taken inside a loop body (reported, never used to prune)
+	fieldE   map[string]ast.Expr   // "x.f" -> the boolean condition stored in that field by a composite literal / assignment
+	fieldA   map[string]fieldAtom  // "x.f" -> the same condition reduced to one atom / a constant (valid in any scope)
 	valT     map[string]types.Type // local -> the concrete type of the value an inlined helper returned for it
 }
 
